@@ -95,6 +95,16 @@ CHECKS = {
             "failing input. Partial: the injectivity clause is searched for collisions, not yet proved.",
             NOTE + " Modelled not verified: serde_json's Serializer event order and string splitting, Unicode NFC "
             "(parameter with hypotheses nfc_ok, tested against unicodedata).", "5/C11"),
+    "C13": ("Coq proofs about deserialize_keys (sound, complete, refuses any wrong or repeated identifier), hex and DER "
+            "(SubjectPublicKeyInfo) codecs; correspondence through serde parsing of root/delegations key tables and Decoded<T>",
+            "Theorems for all key tables: a table parses iff every identifier text decodes (either hex case) to the digest of "
+            "its key and no identifier repeats; every parsed entry is attributed to the digest of its key; hex and DER "
+            "round-trips for all byte strings. Tied to the code by parsing root.json / delegations documents with one "
+            "identifier altered in 10 ways (all key types, extra members), by Decoded<Hex|RsaPem|EcdsaPem> on random bytes, and "
+            "by key-id stability over re-serialise/re-parse.",
+            NOTE + " SHA-256 and the key's canonical form are supplied by the harness (canonical JSON is C11's subject); the "
+            "PEM armour/base64 layer and aws-lc's DER reader are exercised, not modelled beyond well-formed input and simple "
+            "corruptions.", "5/C13"),
     "C14": ("Coq proofs: rotation clears stored timestamp/snapshot, no stored version constrains afterwards, unrotated roles "
             "keep protecting (C03's invariant); correspondence over inflated versions up to 2^63",
             CLIENT + "Theorems: when the walk ends with a root whose timestamp or snapshot key list differs from the previously "
